@@ -428,6 +428,34 @@ def plan(tier, seed):
     return [{'shard': i, 'nshards': 16} for i in range(16)]
 
 
+def family_form(case) -> tuple[str, str] | None:
+    """'route P next-hop ...' in the family syntax of the API and of the announce { } section: ('ipv4', 'unicast P next-hop ...')"""
+    t = case['text']
+    if not t.startswith('route '):
+        return None
+    rest = t[len('route ') :]
+    words = rest.split()
+    safi = 'mpls-vpn' if ' rd ' in f' {rest} ' else 'nlri-mpls' if ' label ' in f' {rest} ' else 'unicast'
+    if not words or words[0] == 'next-hop':
+        return None  # 'route next-hop ...': the missing prefix is a case of the route syntax
+    return ('ipv4' if case['afi'] == 1 else 'ipv6'), f'{safi} {rest}'
+
+
+def parse_family(conf, afi_name: str, line: str):
+    """what API.api_announce_v4/v6 do, on this Configuration (neighbors kept as parse_route_text keeps them)"""
+    saved = conf.neighbors.copy()
+    try:
+        conf.static.clear()
+        if not conf.partial(afi_name, line, 'announce'):
+            return []
+        if conf.scope.location():
+            return []
+        conf.scope.to_context()
+        return conf.scope.pop_routes()
+    finally:
+        conf.neighbors = saved
+
+
 def run_shard(desc):
     from exabgp.bgp.message.update.collection import RoutedNLRI, UpdateCollection
 
@@ -443,7 +471,10 @@ def run_shard(desc):
     mine = [c for i, c in enumerate(cases) if i % desc['nshards'] == desc['shard']]
     sessions = {}
     for case in mine:
-        for surface in ('config', 'api'):
+        for surface in ('config', 'api', 'api-family'):
+            fam = family_form(case) if surface == 'api-family' else None
+            if surface == 'api-family' and fam is None:
+                continue
             cls = f'{case["field"]}:{"legal" if case["legal"] else "illegal"}:{surface}'
             wit = {'text': case['text'], 'field': case['field'], 'position': case['pos'], 'legal': case['legal'], 'surface': surface}
             accepted = None
@@ -462,7 +493,9 @@ def run_shard(desc):
                         err = str(e)
                 else:
                     conf, nb, neg, ref, ctext = c01.build(k0, [])
-                    rs = conf.parse_route_text(case['text'], 'announce')
+                    if fam:
+                        wit['family_form'] = f'announce {fam[0]} {fam[1]}'
+                    rs = parse_family(conf, *fam) if fam else conf.parse_route_text(case['text'], 'announce')
                     accepted = bool(rs)
                     err = str(conf.error)
                     route_objs = [nb.resolve_self(x) for x in rs]
@@ -502,7 +535,7 @@ def run_shard(desc):
                         sessions[key] = c01.build(k, [])
                     sconf, snb, sneg, sref, _ = sessions[key]
                     # the session's own parser produces the routes for that neighbor (next-hop self resolution etc.)
-                    rs = sconf.parse_route_text(case['text'], 'announce')
+                    rs = parse_family(sconf, *fam) if fam else sconf.parse_route_text(case['text'], 'announce')
                     if not rs:
                         res.violation(f'C18/accepted-then-refused:{case["field"]}', f'text accepted under one neighbor is refused under session {key}', dict(wit, session=key), cls)
                         ok = False
